@@ -27,6 +27,7 @@ func init() {
 			"C11.R2b a handler-side call of a data-source method outside a request closure and outside the start phase has no effect on the source: no implementation stores into a field of an object it did not allocate (table exceptions: Stop, ConfigureMixFraction)",
 			"C11.R2s the receiver of the chan func() calls the received closure synchronously and calls block processing synchronously in the same function",
 			"C11.R2p one production step per consumed block: in the request-channel consumer a call of the data-source method that hands out the block channel (for Lancero and Abaco it also starts the next production step) lies outside the loop, or is dominated by the select arm (or receive) that took a block from that channel",
+			"C11.R9 no call of gonum's (*mat.Dense/VecDense).UnmarshalBinaryFrom (allocates what the header claims; documented as unsafe for untrusted data) is reachable from an RPC handler",
 			"C11.R8 no field assignment to a by-value struct parameter/receiver whose value is never read again, in the functions the core loop runs (lost update of shared state: a one-shot activity stays armed and a later send blocks the loop)",
 			"C11.R3 guard dominance (E6): forward taint from the arguments of request handlers through calls, closures, returns, request-written fields (outside per-channel types), channel messages and client-keyed maps; every index / slice bound / make size / divisor fed by such a value needs 0 <= v and v < len proven from dominating branch conditions, range loops, completed validation loops and derived equal-length invariants, in the function itself or at every place that supplies the value (call sites, closure creation, send sites, field stores, map insertions)",
 			"C11.R4 mortal peer: the hand-off send must be a select arm with an alternative; the active flag is set true only on the success branch of the start call; handlers test the flag before calls that block on per-block goroutines",
@@ -69,6 +70,7 @@ func runC11(p *Prog, r *Report) {
 	checkLockReentrancy(p, r, "C11.R6")
 	c13R2As(p, r, "C11.R7")
 	c11R8(p, r)
+	c11R9(p, r, rv)
 }
 
 // ---- R1 ------------------------------------------------------------------------
